@@ -4,8 +4,11 @@ import re
 # A pattern to match the word "through" or equivalent symbol or
 # abbreviation. (Embedded into other regex patterns -- not to be used on
 # its own.)
+# (A period after the abbreviation belongs to the abbreviation: it is
+# either consumed here or must not be there -- so that 'thru.' cannot also be
+# read as 'thru' followed by a separate '.' separator.)
 through_regex = re.compile(
-    r'([\-–—]|th[rough]{3,6}\.?|thru\.?|to)', re.IGNORECASE)
+    r'([\-–—]|th[rough]{3,6}(?:\.|(?!\.))|thru(?:\.|(?!\.))|to)', re.IGNORECASE)
 
 
 # A pattern to be embedded within patterns to match elided lists.
